@@ -1,0 +1,20 @@
+//go:build verif
+
+package rtsp
+
+import "github.com/q191201771/naza/pkg/nazahttp"
+
+// VerifReadHttpRequestMessage exposes readHttpRequestMessage (the RTSP request reader of ServerCommandSession) to the verification harness.
+func VerifReadHttpRequestMessage(r nazahttp.HttpReader) (nazahttp.HttpReqMsgCtx, error) {
+	return readHttpRequestMessage(r)
+}
+
+// VerifReadHttpResponseMessage exposes readHttpResponseMessage (the RTSP response reader of ClientCommandSession).
+func VerifReadHttpResponseMessage(r nazahttp.HttpReader) (nazahttp.HttpRespMsgCtx, error) {
+	return readHttpResponseMessage(r)
+}
+
+// VerifReadHttpMessage exposes readHttpMessage: unlike the two wrappers it hands out what was read so far (the partial body) together with the error.
+func VerifReadHttpMessage(r nazahttp.HttpReader) (nazahttp.HttpMsgCtx, error) {
+	return readHttpMessage(r)
+}
